@@ -138,13 +138,13 @@ class Chain(object):
       self.net.fire(evs[0], 'ok')
     vloop.run_ready()
 
-  def call(self, method, args, cuts):
+  def call(self, method, args, cuts, kwargs=None):
     """Issue one call; deliver the reply split at `cuts` (sorted byte offsets), one chunk at a time."""
     from scales.dispatch import MessageDispatcher
     from scales.message import MethodCallMessage
     n0 = len(self.peer.requests)
     r0 = len(self.conn.sent)
-    ar = MessageDispatcher.StaticDispatchMessage(self.top, None, 0, None, MethodCallMessage(self.iface, method, args, {}))
+    ar = MessageDispatcher.StaticDispatchMessage(self.top, None, 0, None, MethodCallMessage(self.iface, method, args, dict(kwargs or {})))
     vloop.run_ready()
     sent = bytes(self.conn.sent[r0:])
     reqs = self.peer.requests[n0:]
@@ -340,6 +340,45 @@ def run_sequences(first_idx):
   return {'n': n, 'keys': len(keys), 'viol': viol, 'sample': {'sequence': [[allc[i][1], allc[i][3]] for i in seqs[-1]]} if seqs else None}
 
 
+def run_keyword_calls():
+  """Arguments passed by keyword (all of them, or the trailing ones), including empty / zero / false values: the server must
+  decode exactly the values the caller passed."""
+  VSvc, VBase, T = vsvc()
+  H = hello()
+  viol = []
+  n = 0
+  forms = []
+  for v in ['', 'a', 'é', '0']:
+    forms.append(('hello', 'hi', (), {'test_data': v}, (v,)))
+    forms.append(('vsvc', 'echo', (), {'s': v}, (v,)))
+    forms.append(('vsvc', 'fetch', (), {'key': v}, (v,)))
+  for a in (0, 1, -1):
+    for b in (0, 2):
+      forms.append(('vsvc', 'add', (), {'a': a, 'b': b}, (a, b)))
+      forms.append(('vsvc', 'add', (a,), {'b': b}, (a, b)))
+      forms.append(('vsvc', 'add', (), {'b': b, 'a': a}, (a, b)))
+  for nn in (0, 7):
+    forms.append(('vsvc', 'check', (), {'n': nn}, (nn,)))
+  forms.append(('vsvc', 'pass_msg', (), {'m': T.Msg('', 0)}, (T.Msg('', 0),)))
+  for ikey, method, args, kwargs, want in forms:
+    n += 1
+    world.reset()
+    ch = Chain(H.Iface, H.Processor) if ikey == 'hello' else Chain(VSvc.Iface, VSvc.Processor)
+    ch.handler.outcome, ch.handler.value = 'value', None
+    ar, sent, reqs, reply = ch.call(method, args, [], kwargs)
+    bad = None
+    if len(reqs) != 1:
+      bad = 'the Thrift processor decoded %d requests (%r; caller: %r)' % (len(reqs), ch.peer.errors[-1:], observe(ar))
+    elif ch.handler.calls[-1] != (method, want):
+      bad = 'server decoded %s%r' % ch.handler.calls[-1]
+    if bad:
+      viol.append({'clause': 'C14.request-args', 'message': 'call %s.%s(*%r, **%r): %s, caller passed %r' % (ikey, method, args, kwargs, bad, want),
+                   'sig': {'method': method, 'keyword': True}})
+      if len(viol) >= 3:
+        break
+  return {'n': n, 'keys': n, 'viol': viol, 'sample': {'keyword_call': 'add(a=0, b=0)'}}
+
+
 def wsvc():
   from ..gen_py.wsvc import WSvc, WBase
   return WSvc, WBase
@@ -507,6 +546,7 @@ def main(tier, seed):
     out = explore.pmap('vt.checks.c14', 'run_cases', jobs, pool, seed)
     out += explore.pmap('vt.checks.c14', 'run_sequences', [([i],) for i in range(len(allc))], pool, seed)
     out += explore.pmap('vt.checks.c14', 'run_two_services', [()], pool, seed)
+    out += explore.pmap('vt.checks.c14', 'run_keyword_calls', [()], pool, seed)
     out += explore.pmap('vt.checks.c14', 'run_readall', [(7 if tier == 'quick' else 9, 3 if tier == 'quick' else 4)], pool, seed)
   finally:
     pool.close()
